@@ -39,7 +39,7 @@
 (***************************************************************************)
 EXTENDS Integers, Sequences, FiniteSets, TLC, Json
 
-CONSTANTS MaxIdx, MaxTerm, MaxReady, MaxCrash,
+CONSTANTS MaxIdx, MaxTerm, MaxReady, MaxCrash, MaxAppend,
           InstallSaveFirst,     \* FALSE: as the code does (snapshot file, WAL snapshot record, THEN hard state). TRUE: the
                                 \* as-observed variant for B3 - a Ready loop seen to save the hard state of a snapshot-
                                 \* carrying Ready before the snapshot; its behaviours are replayed to obtain a real witness
@@ -175,7 +175,7 @@ Recover ==
   /\ up' = TRUE
   /\ UNCHANGED <<wal, unsynced, files, pend, nready, ncrash>>
 
-Next == \/ \E k \in 1..2 : \E c \in 0..MaxIdx : AppendEnts(k, c)
+Next == \/ \E k \in 1..MaxAppend : \E c \in 0..MaxIdx : AppendEnts(k, c)
         \/ \E c \in 1..MaxIdx : CommitOnly(c)
         \/ \E j \in 1..MaxIdx : NewTerm(j)
         \/ LocalSnap
